@@ -55,6 +55,16 @@ Fixpoint stmt_beq (a b : stmt) {struct a} : bool :=
   | SWhile e b1 b2, SWhile e' b1' b2' => expr_beq e e' && blk b1 b1' && blk b2 b2'
   | SFor t e b1 b2, SFor t' e' b1' b2' => expr_beq t t' && expr_beq e e' && blk b1 b1' && blk b2 b2'
   | SWith e v b, SWith e' v' b' => expr_beq e e' && opt_beq String.eqb v v' && blk b b'
+  | STry b hs o f, STry b' hs' o' f' =>
+      blk b b' &&
+      (fix hbeq (xs ys : list handler) {struct xs} : bool :=
+         match xs, ys with
+         | [], [] => true
+         | (t, v, hb) :: xs', (t', v', hb') :: ys' =>
+             opt_beq expr_beq t t' && opt_beq String.eqb v v' && blk hb hb' && hbeq xs' ys'
+         | _, _ => false
+         end) hs hs' &&
+      blk o o' && blk f f'
   | _, _ => false
   end.
 
